@@ -126,6 +126,122 @@ fn run_std<T: DeserializeOwned + std::fmt::Debug + Send + 'static, const N: usiz
     })
 }
 
+/// like `run_std`, with a runtime that registers exactly the given encodings (0 = JSON, 1 = Smile), in that order
+fn run_std_rt<T: DeserializeOwned + std::fmt::Debug + Send + 'static>(encs: &[u8], ct: Option<&str>, cs: &[Chunk], is_async: bool) -> Result<String, String> {
+    let its = items(cs);
+    let ct = ct.map(|s| s.to_string());
+    let encs = encs.to_vec();
+    guarded(move || {
+        let mut b = ConjureRuntime::builder();
+        for e in &encs {
+            b = if *e == 0 { b.encoding(conjure_http::server::JsonEncoding) } else { b.encoding(conjure_http::server::SmileEncoding) };
+        }
+        let rt = b.build();
+        let mut h = HeaderMap::new();
+        if let Some(c) = &ct {
+            if let Ok(v) = HeaderValue::from_str(c) {
+                h.insert(CONTENT_TYPE, v);
+            }
+        }
+        let r: Result<T, Error> = if is_async {
+            futures::executor::block_on(<StdRequestDeserializer<64> as AsyncDeserializeRequest<T, _>>::deserialize(&rt, &h, futures::stream::iter(its)))
+        } else {
+            <StdRequestDeserializer<64> as DeserializeRequest<T, _>>::deserialize(&rt, &h, its.into_iter())
+        };
+        match r {
+            Ok(v) => format!("handler {}", vid(&v)),
+            Err(e) => match classify(&e).as_str() {
+                "InvalidArgument" => "invalid".to_string(),
+                other => other.to_string(),
+            },
+        }
+    })
+}
+
+/// body types that leave unknown fields to the deserializer they are read with (no `deny_unknown_fields`): an object,
+/// and a serde enum whose variants hold objects — the server's rules must reach below the variant
+#[derive(Debug, Clone, PartialEq, Serialize, Deserialize)]
+pub struct LObj {
+    a: i32,
+    #[serde(default, skip_serializing_if = "Option::is_none")]
+    b: Option<String>,
+}
+#[derive(Debug, Clone, PartialEq, Serialize, Deserialize)]
+pub enum LCmd {
+    Create { foo: i32 },
+    Wrap(LObj),
+    Many(Vec<LObj>),
+    Pair(i32, LObj),
+    Unit,
+}
+
+/// documents whose validity under server rules is known by construction; JSON and Smile, blocking and async, and the
+/// registered-encoding clause with runtimes that register only one encoding
+fn server_rules(cs: &mut Cases) {
+    // (serde *struct variants* are not object types in the statement's sense — Conjure never generates them and
+    // `struct_variant` does not pass through `deserialize_struct`; see DESIGN.md C05 — so `Create` only appears valid)
+    let docs: [(&str, char, bool); 14] = [
+        ("{\"a\":1}", 'o', true),
+        ("{\"a\":1,\"b\":\"x\"}", 'o', true),
+        ("{\"a\":1,\"zz\":2}", 'o', false),
+        ("{\"zz\":{\"a\":1},\"a\":1}", 'o', false),
+        ("{\"Create\":{\"foo\":1}}", 'c', true),
+        ("{\"Wrap\":{\"a\":1}}", 'c', true),
+        ("{\"Wrap\":{\"a\":1,\"x\":null}}", 'c', false),
+        ("{\"Many\":[{\"a\":1},{\"a\":2}]}", 'c', true),
+        ("{\"Many\":[{\"a\":1},{\"a\":2,\"y\":[]}]}", 'c', false),
+        ("{\"Pair\":[3,{\"a\":1}]}", 'c', true),
+        ("{\"Pair\":[3,{\"a\":1,\"q\":0}]}", 'c', false),
+        ("\"Unit\"", 'c', true),
+        ("{\"Create\":{\"foo\":1},\"Unit\":null}", 'c', false),
+        ("{\"Nope\":{\"foo\":1}}", 'c', false),
+    ];
+    for (doc, ty, valid) in docs {
+        let value: serde_json::Value = serde_json::from_str(doc).unwrap();
+        for smile in [false, true] {
+            let body = if smile { serde_smile::to_vec(&value).unwrap() } else { doc.as_bytes().to_vec() };
+            let ct = if smile { "application/x-jackson-smile" } else { "application/json" };
+            let chunks = if body.len() > 3 { vec![Chunk::Ok(body[..3].to_vec()), Chunk::Ok(body[3..].to_vec())] } else { vec![Chunk::Ok(body.clone())] };
+            let (b, a) = if ty == 'o' { (run_std::<LObj, 64>(Some(ct), &chunks, false), run_std::<LObj, 64>(Some(ct), &chunks, true)) } else { (run_std::<LCmd, 64>(Some(ct), &chunks, false), run_std::<LCmd, 64>(Some(ct), &chunks, true)) };
+            cs.push("std:server-rules", "noop".into(), "noop".into(), true, format!("StdRequestDeserializer::<{}> {} body {}", if ty == 'o' { "LObj" } else { "LCmd" }, if smile { "Smile" } else { "JSON" }, doc));
+            match (b, a) {
+                (Ok(b), Ok(a)) => {
+                    if a != b {
+                        cs.fail_last("server:blocking-async-differ", format!("blocking says {:?}, async says {:?}", b, a));
+                    } else if valid && !b.starts_with("handler") {
+                        cs.fail_last("server:valid-body-rejected", format!("the valid document {} ({}) gives {:?}", doc, ct, b));
+                    } else if !valid && b.starts_with("handler") {
+                        cs.fail_last("server:invalid-body-accepted", format!("handler invoked for {} ({}), which has an undeclared field or is not a value of the type", doc, ct));
+                    }
+                }
+                (b, a) => cs.fail_last("server:panic", format!("panicked: blocking {:?} async {:?}", b, a)),
+            }
+        }
+    }
+    // only registered encodings decode a body
+    let json_body = b"[1,2]".to_vec();
+    let smile_body = serde_smile::to_vec(&vec![1, 2]).unwrap();
+    for encs in [&[0u8][..], &[1u8][..], &[1u8, 0][..], &[0u8, 1][..]] {
+        for (ct, body, enc) in [("application/json", &json_body, 0u8), ("application/x-jackson-smile", &smile_body, 1u8)] {
+            let chunks = vec![Chunk::Ok(body.clone())];
+            let b = run_std_rt::<Vec<i32>>(encs, Some(ct), &chunks, false);
+            let a = run_std_rt::<Vec<i32>>(encs, Some(ct), &chunks, true);
+            let registered = encs.contains(&enc);
+            cs.push("std:registered-encodings", "noop".into(), "noop".into(), true, format!("runtime registering {:?} (0 = JSON, 1 = Smile), Content-Type {}", encs, ct));
+            match (b, a) {
+                (Ok(b), Ok(a)) => {
+                    if a != b {
+                        cs.fail_last("server:blocking-async-differ", format!("blocking says {:?}, async says {:?}", b, a));
+                    } else if registered != b.starts_with("handler") {
+                        cs.fail_last(if registered { "server:valid-body-rejected" } else { "server:unregistered-encoding-accepted" }, format!("runtime registering {:?}: a {} body gives {:?}", encs, ct, b));
+                    }
+                }
+                (b, a) => cs.fail_last("server:panic", format!("panicked: blocking {:?} async {:?}", b, a)),
+            }
+        }
+    }
+}
+
 fn run_opt<T: DeserializeOwned + std::fmt::Debug + Send + 'static>(ct: Option<&str>, cs: &[Chunk], is_async: bool) -> Result<String, String> {
     let its = items(cs);
     let ct = ct.map(|s| s.to_string());
@@ -569,6 +685,10 @@ pub fn cases(seed: u64, tier: Tier, client: bool) -> Cases {
             let ct = *rng.pick(&cts);
             server_case::<Vec<i32>, 10>(&mut cs, "std:random", ct, &ch);
         }
+        server_rules(&mut cs);
+        // which deserializer the generated server trait names for a body argument (optional / binary / standard, with or
+        // without a size-limit tag): the generated source for seeded definitions against Model/Emit.lean and the types
+        crate::ops::emit::add(&mut cs, &mut rng, tier);
     } else {
         // ---- client
         let kinds = [Kind::Empty, Kind::Ser, Kind::DefSer, Kind::Bin, Kind::OptBin];
